@@ -267,6 +267,8 @@ spifconf_put_var(spif_charptr_t var, spif_charptr_t val)
                 }
                 spifconf_free_var(v);
             }
+            /* The list already has its own copy of the name. */
+            FREE(var);
             return;
         } else if (n < 0) {
             break;
@@ -274,6 +276,7 @@ spifconf_put_var(spif_charptr_t var, spif_charptr_t val)
     }
     if (!val) {
         D_CONF(("Empty value given for non-existant variable \"%s\".  Aborting.\n", var));
+        FREE(var);
         return;
     }
     D_CONF(("Inserting new var/val pair between \"%s\" and \"%s\"\n",
